@@ -3,6 +3,7 @@
 from __future__ import annotations
 
 import copy
+import os
 import hashlib
 import random
 
@@ -229,13 +230,14 @@ def c12_eval_world(world, root, stats, only=None):
     else:
         rng = random.Random(world["seed"] ^ 0xC12)
         pts = points
-        if len(pts) > 40:
-            pts = rng.sample(pts, 40)
+        cap = 120 if os.environ.get("VERIF_TIER") == "thorough" else 40
+        if len(pts) > cap:
+            pts = rng.sample(pts, cap)
         for e in pts:
             for kind in ("exc", "assert"):
                 plans.append([[e["key"], kind]])
         # sampled pairs
-        for _ in range(min(6, len(points) // 2)):
+        for _ in range(min(20 if os.environ.get("VERIF_TIER") == "thorough" else 6, len(points) // 2)):
             a, b = rng.sample(points, 2)
             plans.append([[a["key"], "exc"], [b["key"], rng.choice(["exc", "assert"])]])
     if h0.get("escaped") or h0.get("config_error"):
